@@ -475,7 +475,7 @@ def _run_pe(case, M):
       'state': model.phys_state_si(rng, grid0, layers, decay=float(rng.choice([0.0, 1.0])), tracers=tracers,
                                    radius_m=consts.get('radius_m', 6.371e6)),
       'oro': model.orography_si(rng, grid0, lmax=min(8, grid0.total_wavenumbers - 2), height=2500.0),
-      'tref': model.tref_profile(rng, layers, str(rng.choice(['random', 'tropopause', 'linear'])),
+      'tref': model.tref_profile(rng, layers, str(rng.choice(['random', 'tropopause', 'linear', 'cooling', 'isothermal_top'])),
                                  centers=(bnd[1:] + bnd[:-1]) / 2),
   }
   A = _pe_side(case, case['scales'][0], SI, dtype)
